@@ -63,6 +63,7 @@ func cmdCheck(args []string) int {
 	known := loadKnown()
 	progs := map[string]*loadedProgram{}
 	var results []*harnessResult
+	var notRun []string
 	exit := 0
 	for _, hs := range ps.Harnesses {
 		if *only != "" && hs.Func != *only {
@@ -80,6 +81,11 @@ func cmdCheck(args []string) int {
 				return 2
 			}
 			progs[hs.Pkg] = lp
+		}
+		if !lp.hasHarness(hs.Func) {
+			fmt.Printf("NOT-RUN harness %s/%s: its source file does not compile against this tree (stale harness, see HARNESS-STALE above); nothing is claimed for it\n", hs.Pkg, hs.Func)
+			notRun = append(notRun, hs.Pkg+"."+hs.Func)
+			continue
 		}
 		cfg := &harnessCfg{Prop: ps.ID, Pkg: hs.Pkg, Func: hs.Func, Tier: tier, StepBudget: 4000000, DecBudget: 6000,
 			concLimit: 64, Timeout: 45 * time.Second, Workers: *workers, FP: hs.FP}
@@ -130,6 +136,9 @@ func cmdCheck(args []string) int {
 	}
 	sort.Strings(pkgs)
 	var notes []string
+	for _, n := range notRun {
+		notes = append(notes, "harness not run (stale against this tree): "+n)
+	}
 	replayBroken := false
 	for _, pkg := range pkgs {
 		var cases []nativeCase
